@@ -35,3 +35,56 @@ Fixpoint nlist_eqb (a b : list N) : bool :=
   end.
 
 Definition wins_eqb (a b : wins) : bool := nlist_eqb (wins_code a) (wins_code b).
+
+(* ------------------------------------------------------------------ the walrus IR *)
+(* InstrSeqType *)
+Inductive seqty := ST_Simple (t : option valty) | ST_Multi (ty : N).
+
+(* ir::Instr : the non-control variants are Gen/Ops.v [plain]; ids are arena positions *)
+Inductive instr :=
+  | IPlain (p : plain)
+  | IBlock (s : N) | ILoop (s : N) | IIfElse (c a : N)
+  | IBr (s : N) | IBrIf (s : N) | IBrTable (ss : list N) (d : N).
+
+(* InstrSeq { ty, instrs : Vec<(Instr, InstrLocId)>, end } ; id = position in the arena *)
+Record iseq := { sq_ty : seqty; sq_instrs : list (instr * N); sq_end : N }.
+Definition arena := list iseq.
+
+(* InstrLocId::default() *)
+Definition default_loc : N := 4294967295.
+
+Definition empty_seq (ty : seqty) : iseq := {| sq_ty := ty; sq_instrs := []; sq_end := default_loc |}.
+
+(* BlockKind *)
+Inductive bkind := KBlock | KLoop | KIf | KElse | KEntry.
+
+(* Instr::following_instructions_are_unreachable is not used by the parser; the parser
+   marks frames unreachable through ctx.unreachable() (Gen: marks_unreachable + br/br_table) *)
+
+(* the tree an arena entry denotes (specification side) *)
+Inductive tree := T (sid : N) (ty : seqty) (items : list (item * N)) (end_ : N)
+with item :=
+  | ItP (p : plain) | ItBr (s : N) | ItBrIf (s : N) | ItBrTable (ss : list N) (d : N)
+  | ItB (t : tree) | ItL (t : tree) | ItI (c a : tree).
+
+Definition tsid (t : tree) : N := match t with T s _ _ _ => s end.
+Definition shallow (it : item) : instr :=
+  match it with
+  | ItP p => IPlain p | ItBr s => IBr s | ItBrIf s => IBrIf s | ItBrTable ss d => IBrTable ss d
+  | ItB t => IBlock (tsid t) | ItL t => ILoop (tsid t) | ItI c a => IIfElse (tsid c) (tsid a)
+  end.
+Definition shallow_seq (t : tree) : iseq :=
+  match t with T _ ty items e => {| sq_ty := ty; sq_instrs := map (fun x => (shallow (fst x), snd x)) items; sq_end := e |} end.
+
+(* [Den ar t] : the arena holds exactly this tree at [tsid t] *)
+Fixpoint Den (ar : arena) (t : tree) : Prop :=
+  match t with T s ty items e =>
+    nth_error ar (N.to_nat s) = Some (shallow_seq (T s ty items e)) /\
+    (fix go (l : list (item * N)) := match l with [] => True | x :: l' => IDen ar (fst x) /\ go l' end) items
+  end
+with IDen (ar : arena) (it : item) : Prop :=
+  match it with
+  | ItB t | ItL t => Den ar t
+  | ItI c a => Den ar c /\ Den ar a
+  | _ => True
+  end.
